@@ -59,7 +59,7 @@ func (c *TypesList) AddNameWithASTNode(name, typ string, an schema.RuleASTNode) 
 	c.innerTypeNames = append(c.innerTypeNames, name)
 	c.typeNames = append(c.typeNames, typ)
 	c.elementASTNodes = append(c.elementASTNodes, an)
-	c.hasUserTypes = c.hasUserTypes || name[0] == '@'
+	c.hasUserTypes = c.hasUserTypes || strings.HasPrefix(name, "@")
 }
 
 func (c TypesList) Names() []string {
